@@ -6,21 +6,26 @@ from harness import gal
 
 ID = 'C14'
 MODEL_TARGETS = ['theories/C14/Run.vo']
-PROOF_TARGETS = ['theories/C14/Properties.vo']
+PROOF_TARGETS = ['theories/C14/Properties.vo', 'theories/C14/Refuted.vo']
 PROPERTIES_V = 'theories/C14/Properties.v'
 IMPORTS = 'Require Import FV.Gen.C14 FV.C14.Model FV.C14.HasStates FV.C14.Run.'
 CASE_TYPE = 'anycase'
 CHECK = 'check_any'
 SHARD_SIZE = 400
-RULE = ('histories of {cycle, start(A|B|C, cleanup?, attrs), stop} over scripted state/cleanup function behaviours '
-        '(next/retry/finish/non-callable/raise) with start/stop injected by the environment at hook points '
-        '(time.time(), inside state functions, inside cleanup functions, in the transition callback); '
-        'random (seeded) plus exhaustive short histories in thorough; a case is non-trivial when at least one '
-        'state function ran; distinct = distinct (ops, consumed scripts, env) tuples')
+RULE = ('three kinds of cases.  core: histories of {cycle, start(A|B|C, cleanup?, attrs), stop} over scripted state/cleanup '
+        'function behaviours (next/retry/finish/non-callable/raise) with start/stop injected at hook points (time.time(), '
+        'inside state functions, inside cleanup functions, in the transition callback, at every acquisition of '
+        'StateMachine._lock by the cycling thread); random (seeded) plus exhaustive short histories.  conc: the same with a '
+        'second REAL thread calling start()/stop() under harness/dsched.py (switch points = hook points and every '
+        'acquisition of sm._lock, which is replaced by a scheduler-aware lock); random placements plus one post at every '
+        'switch point of fixed programs; where the posts landed is translated into the world of the model.  hs: a real '
+        'HasStates+Drivable module with start_machine/stop_machine/cycle_machine between cycles and start_machine/'
+        'stop_machine at hook points, default and scripted cleanup functions, final_status.  A case is non-trivial when at '
+        'least one state function ran; distinct = distinct (ops, consumed scripts, interference) tuples')
 ASSUMPTIONS = [
     'state/cleanup functions are python functions with a __name__; attribute names passed to start() are not class attributes of StateMachine',
-    'interference of a second thread is modelled at hook points only (between any two reads of next_task there is a hook or the reads are adjacent); see DESIGN C14',
-    'HasStates layer (frappy/states.py): start_machine/stop_machine/cycle_machine are issued between cycles only (no interference inside a cycle), cleanup is the default on_cleanup, state functions carry busy status codes or none',
+    'a second thread runs at hook points and at the acquisitions of StateMachine._lock (switch points of harness/dsched.py); preemption between two bytecodes without such a point in between is covered by the two-thread transition system Conc.v (every line of the pick-up and of start/stop is an atomic step) and the translator facts pickup_reads_under_lock / next_task_written_only_by_start_stop_cycle, not by execution',
+    'HasStates layer (frappy/states.py): start_machine/stop_machine come between cycles and at hook points (same thread); cleanup is on_cleanup or a scripted function; state functions carry busy status codes or none; on_error/on_restart/on_stop are not overridden',
 ]
 NKEYS = 3
 ABORT_AFTER = 400
@@ -39,30 +44,56 @@ def _consts():
 
 
 # ------------------------------------------------------------------ implementation driver
-def run_case(case):
-    if case.get('kind') == 'hs':
-        return run_hs(case)
-    from frappy.lib import statemachine as smod
+class CoreRig:
+    """a real StateMachine with scripted state / cleanup functions and numbered hook points.
 
-    events = []          # current op's events
-    st = {'hook': 0, 'si': 0, 'ci': 0, 'calls': 0}
-    used_s, used_c = [], []       # (hook number, behaviour)
-    env = {int(k): v for k, v in case['env']}
-    sscript, cscript = case['s'], case['c']
-    funcs = {}
-    posts = []           # (hook or None, task id, task)
+    Hook points (numbered in execution order, kinds in self.kinds): T time.time() at the top of an inner loop turn,
+    S body of a state function, C body of a cleanup function, XS / XN transition callback (to a state / to None),
+    L acquisition of StateMachine._lock by the cycling thread (sm._lock is replaced by a HookLock).
+    sequential mode (sched None): the task case['env'][n] is posted at hook n by the same thread;
+    concurrent mode (sched = dsched.Scheduler): every hook and every lock acquisition is a switch point and a second
+    real thread posts; where its posts landed is recorded in xenv / xops."""
 
-    def state_fn(sid):
-        if sid not in funcs:
+    def __init__(self, case, smod, sched=None):
+        self.case, self.smod, self.S = case, smod, sched
+        self.events = []
+        self.hookn = self.si = self.ci = self.calls = 0
+        self.used_s, self.used_c, self.kinds = [], [], []
+        self.env = {int(k): v for k, v in case.get('env', [])}
+        self.funcs = {}
+        self.in_cycle = False
+        self.posting = False
+        self.point = None
+        self.sm = None
+
+    # ---- hooks
+    def is_main(self):
+        return self.S is None or getattr(self.S.current_thread(), 'name', 'main') == 'main'
+
+    def hook(self, kind):
+        n = self.hookn
+        self.hookn += 1
+        self.kinds.append(kind)
+        self.point = n
+        if self.S is not None:
+            self.S.switch(f'hook{n}{kind}')
+        elif n in self.env:
+            self.post(self.env[n], 1000 + n)
+        return n
+
+    # ---- scripted functions
+    def state_fn(self, sid):
+        smod = self.smod
+        if sid not in self.funcs:
             def f(sm):
-                st['calls'] += 1
-                if st['calls'] > ABORT_AFTER:
+                self.calls += 1
+                if self.calls > ABORT_AFTER:
                     raise Abort()
-                events.append(['call', sid, bool(sm.init)])
-                n = hook(sm)
-                b = sscript[st['si']] if st['si'] < len(sscript) else 'R'
-                st['si'] += 1
-                used_s.append([n, b])
+                self.events.append(['call', sid, bool(sm.init)])
+                n = self.hook('S')
+                b = self.case['s'][self.si] if self.si < len(self.case['s']) else 'R'
+                self.si += 1
+                self.used_s.append([n, b])
                 if b == 'R':
                     return smod.Retry
                 if b == 'F':
@@ -71,113 +102,222 @@ def run_case(case):
                     return 42
                 if b == 'E':
                     raise ValueError('scripted')
-                return state_fn(b[1])
+                return self.state_fn(b[1])
             f.__name__ = f'state_{sid}'
-            funcs[sid] = f
-        return funcs[sid]
+            self.funcs[sid] = f
+        return self.funcs[sid]
 
-    def cleanup_fn(owner, cid):
+    def cleanup_fn(self, owner, cid):
+        smod = self.smod
+
         def c(sm):
             r = sm.cleanup_reason
             rc = 0 if isinstance(r, Exception) else 1 if isinstance(r, smod.Start) else 2 if isinstance(r, smod.Stop) else 9
-            events.append(['cleanup', owner, cid, rc])
-            n = hook(sm)
-            b = cscript[st['ci']] if st['ci'] < len(cscript) else 'N'
-            st['ci'] += 1
-            used_c.append([n, b])
+            self.events.append(['cleanup', owner, cid, rc])
+            n = self.hook('C')
+            b = self.case['c'][self.ci] if self.ci < len(self.case['c']) else 'N'
+            self.ci += 1
+            self.used_c.append([n, b])
             if b == 'N':
                 return None
             if b == 'X':
                 return 42
             if b == 'E':
                 raise ValueError('scripted cleanup')
-            return state_fn(b[1])
+            return self.state_fn(b[1])
         c.__name__ = f'cleanup_{owner}_{cid}'
         c.verif = (owner, cid)
         return c
 
-    def post(sm, task, tid, n):
-        posts.append([n, tid, task])
-        events.append(['post', tid])
-        if task[0] == 'stop':
-            sm.stop()
-        else:
-            _, sid, cid, kw = task
-            kwds = {f'a{k}': v for k, v in kw}
-            if cid is not None:
-                kwds['cleanup'] = cleanup_fn(tid, cid)
-            sm.start(state_fn(sid), **kwds)
-            sm.next_task.verif_id = tid
-            return
+    def post(self, task, tid):
+        """sm.start / sm.stop called directly (by the cycling thread between cycles or inside a hook, or by the
+        second thread)"""
+        sm = self.sm
+        mine = self.is_main()
+        if mine:
+            self.posting = True
+        try:
+            if task[0] == 'stop':
+                sm.stop()
+            else:
+                _, sid, cid, kw = task
+                kwds = {f'a{k}': v for k, v in kw}
+                if cid is not None:
+                    kwds['cleanup'] = self.cleanup_fn(tid, cid)
+                sm.start(self.state_fn(sid), **kwds)
+        finally:
+            if mine:
+                self.posting = False
         sm.next_task.verif_id = tid
+        self.events.append(['post', tid])
 
-    def hook(sm):
-        n = st['hook']
-        st['hook'] += 1
-        if n in env:
-            post(sm, env[n], 1000 + n, n)
-        return n
+    # ---- the machine
+    def build(self, lock):
+        smod, rig = self.smod, self
 
-    class FakeTime:
-        @staticmethod
-        def time():
-            if cur['sm'] is not None:
-                hook(cur['sm'])
-            return 0.0
+        class FakeTime:
+            @staticmethod
+            def time():
+                if rig.in_cycle:
+                    rig.hook('T')
+                return 0.0
 
-    class Log:
-        def __getattr__(self, name):
-            return lambda *a, **k: None
+        class Log:
+            def __getattr__(self, name):
+                return lambda *a, **k: None
 
-    cur = {'sm': None}
+        class HookLock:
+            """sm._lock: an acquisition by the cycling thread inside cycle() is a hook point"""
 
-    def transition(sm, newstate):
-        events.append(['trans', sm.statefunc is not None,
-                       None if newstate is None else int(newstate.__name__.split('_')[1])])
-        hook(sm)
+            def acquire(self, *a, **k):
+                if rig.in_cycle and not rig.posting and rig.is_main():
+                    rig.hook('L')
+                return lock.acquire(*a, **k)
 
-    orig_time = smod.time
-    smod.time = FakeTime
-    try:
+            def release(self):
+                lock.release()
+
+            def __enter__(self):
+                self.acquire()
+                return True
+
+            def __exit__(self, *a):
+                self.release()
+
+        def transition(sm, newstate):
+            self.events.append(['trans', sm.statefunc is not None,
+                                None if newstate is None else int(newstate.__name__.split('_')[1])])
+            self.hook('XN' if newstate is None else 'XS')
+
+        self.orig_time = smod.time
+        smod.time = FakeTime
         sm = smod.StateMachine(logger=Log(), transition=transition)
+        sm._lock = HookLock()
         orig_cleanup = sm._cleanup
 
         def cleanup_wrapper(reason):
             rc = 0 if isinstance(reason, Exception) else 1 if isinstance(reason, smod.Start) else 2 if isinstance(reason, smod.Stop) else 9
-            events.append(['int', rc])
+            self.events.append(['int', rc])
             return orig_cleanup(reason)
         sm._cleanup = cleanup_wrapper
-        cur['sm'] = sm
-        steps = []
+        self.sm = sm
+        return sm
+
+    def restore(self):
+        self.smod.time = self.orig_time
+
+    def snapshot(self, events, exc=None):
+        sm, smod = self.sm, self.smod
+        r = sm.cleanup_reason
+        return {
+            'events': [list(e) for e in events],
+            'exc': exc,
+            'sf': None if sm.statefunc is None else int(sm.statefunc.__name__.split('_')[1]),
+            'nt': None if sm.next_task is None else getattr(sm.next_task, 'verif_id', -1),
+            'cl': None if sm.cleanup is None else list(getattr(sm.cleanup, 'verif', (-1, -1))),
+            'rc': None if r is None else (0 if isinstance(r, Exception) else 1 if isinstance(r, smod.Start) else 2),
+            'init': bool(sm.init),
+            'attrs': [[k, getattr(sm, f'a{k}', None)] for k in range(NKEYS)],
+            'active': bool(sm.is_active),
+        }
+
+    def do_op(self, op, i):
+        """one operation of the cycling thread; returns the exception text or None"""
+        del self.events[:]
+        try:
+            if op == 'C':
+                self.in_cycle = True
+                try:
+                    self.sm.cycle()
+                finally:
+                    self.in_cycle = False
+            else:
+                self.post(op, i)
+        except Abort:
+            return 'Abort: more than %d state calls' % ABORT_AFTER
+        except Exception as e:
+            return f'{type(e).__name__}: {e}'
+        return None
+
+
+def run_case(case):
+    if case.get('kind') == 'hs':
+        return run_hs(case)
+    if case.get('kind') == 'conc':
+        return run_conc(case)
+    import threading
+    from frappy.lib import statemachine as smod
+    rig = CoreRig(case, smod)
+    try:
+        rig.build(threading.Lock())
+        steps, xops = [], []
         for i, op in enumerate(case['ops']):
-            del events[:]
-            exc = None
-            try:
-                if op == 'C':
-                    sm.cycle()
-                else:
-                    post(sm, op, i, None)
-            except Abort:
-                exc = 'Abort: more than %d state calls' % ABORT_AFTER
-            except Exception as e:
-                exc = f'{type(e).__name__}: {e}'
-            r = sm.cleanup_reason
-            steps.append({
-                'events': [list(e) for e in events],
-                'exc': exc,
-                'sf': None if sm.statefunc is None else int(sm.statefunc.__name__.split('_')[1]),
-                'nt': None if sm.next_task is None else getattr(sm.next_task, 'verif_id', -1),
-                'cl': None if sm.cleanup is None else list(getattr(sm.cleanup, 'verif', (-1, -1))),
-                'rc': None if r is None else (0 if isinstance(r, Exception) else 1 if isinstance(r, smod.Start) else 2),
-                'init': bool(sm.init),
-                'attrs': [[k, getattr(sm, f'a{k}', None)] for k in range(NKEYS)],
-                'active': bool(sm.is_active),
-            })
+            exc = rig.do_op(op, i)
+            steps.append(rig.snapshot(rig.events, exc))
+            xops.append(['C'] if op == 'C' else ['P', op, i])
             if exc:
                 break
-        return {'steps': steps, 'used_s': used_s, 'used_c': used_c, 'posts': posts}
+        return {'steps': steps, 'used_s': rig.used_s, 'used_c': rig.used_c, 'kinds': rig.kinds, 'xops': xops,
+                'xenv': [[n, t, 1000 + n] for n, t in sorted(rig.env.items())]}
     finally:
-        smod.time = orig_time
+        rig.restore()
+
+
+class AtPolicy:
+    """dsched policy: the poster thread runs at the scheduler steps listed in `at` (if it can), the cycling thread
+    at all others"""
+
+    def __init__(self, at):
+        self.at = set(at)
+
+    def __call__(self, n, enabled, current):
+        if n in self.at and 'poster' in enabled:
+            return 'poster'
+        return 'main' if 'main' in enabled else enabled[0]
+
+
+def run_conc(case):
+    """two real threads under harness/dsched.py: 'main' runs the history of cycle()/start()/stop(), 'poster' calls
+    start()/stop() for case['posts2']; switch points are the hook points and every acquisition of sm._lock"""
+    from harness import dsched
+    from frappy.lib import statemachine as smod
+    S = dsched.Scheduler(AtPolicy(case['at']), max_steps=4000)
+    rig = CoreRig(case, smod, S)
+    steps, xops, xenv = [], [], []
+    out = {}
+
+    def poster():
+        for j, task in enumerate(case['posts2']):
+            tid = 2000 + j
+            rig.post(task, tid)            # parks at the acquisition of the lock; the rest runs in one piece
+            if rig.in_cycle:
+                xenv.append([rig.point, task, tid])
+            else:
+                rig.events.pop()           # our own ['post', tid]
+                steps.append(rig.snapshot([['post', tid]]))
+                xops.append(['P', task, tid])
+
+    def main():
+        S.spawn(poster, 'poster')
+        for i, op in enumerate(case['ops']):
+            S.switch('op')
+            exc = rig.do_op(op, i)
+            steps.append(rig.snapshot(rig.events, exc))
+            xops.append(['C'] if op == 'C' else ['P', op, i])
+            if exc:
+                break
+
+    try:
+        lock = S.Lock()
+        lock.name = 'sm._lock'
+        rig.build(lock)
+        res = S.run(main)
+        out = {'steps': steps, 'used_s': rig.used_s, 'used_c': rig.used_c, 'kinds': rig.kinds, 'xops': xops,
+               'xenv': xenv, 'sched': res.status, 'sched_error': res.error or res.thread_errors.get('poster'),
+               'decisions': ''.join('p' if d == 'poster' else 'm' for d in res.decisions)}
+        return out
+    finally:
+        rig.restore()
 
 
 # ------------------------------------------------------------------ encoding into Gallina
@@ -220,9 +360,12 @@ def encode(case, obs):
 
 def encode_core(case, obs):
     ops = []
-    for i, op in enumerate(case['ops'][:len(obs['steps'])]):
-        ops.append('OCycle' if op == 'C' else f'(OPost {enc_task(op, i)})')
-    env = [f'({gal.nat(int(k))}, {enc_task(t, 1000 + int(k))})' for k, t in case['env']]
+    for op in obs['xops'][:len(obs['steps'])]:
+        ops.append('OCycle' if op[0] == 'C' else f'(OPost {enc_task(op[1], op[2])})')
+    last = {}
+    for n, t, tid in obs['xenv']:
+        last[n] = (t, tid)             # several posts at one hook: the last one stays
+    env = [f'({gal.nat(n)}, {enc_task(t, tid)})' for n, (t, tid) in sorted(last.items())]
     obl = []
     for s in obs['steps']:
         if s['exc']:
@@ -255,18 +398,22 @@ def oracle(case, obs):
     def fail(cls, what):
         fails.append({'class': cls, 'what': what})
 
+    if obs.get('sched', 'ok') != 'ok' or obs.get('sched_error'):
+        fail('cycle-raised', f'two-thread run ended with {obs.get("sched")} {obs.get("sched_error")}')
+        return fails
+    xops = obs['xops']
     tasks = {}
-    for i, op in enumerate(case['ops']):
-        if op != 'C':
-            tasks[i] = op
-    for k, t in case['env']:
-        tasks[1000 + int(k)] = t
+    for op in xops:
+        if op[0] == 'P':
+            tasks[op[2]] = op[1]
+    for n, t, tid in obs['xenv']:
+        tasks[tid] = t
     pending = None          # id of the latest posted task not yet taken
     seg = None              # current run: {'task': id, 'has_cleanup': bool, 'ints': n, 'cleanups': n}
     last_ct = None          # last call-or-trans event
     cur_state = None
     for idx, s in enumerate(obs['steps']):
-        op = case['ops'][idx]
+        op = 'C' if xops[idx][0] == 'C' else xops[idx][1]
         if s['exc']:
             fail('cycle-raised', f'op {idx} ({op}) raised {s["exc"]}')
             break
@@ -281,6 +428,7 @@ def oracle(case, obs):
         for e in s['events']:
             k = e[0]
             if k == 'post':
+                # no request is lost: a request disappears only by being taken or by being superseded by this later one
                 pending = e[1]
                 if op == 'C':
                     env_posted = True
@@ -289,7 +437,8 @@ def oracle(case, obs):
                 if f is not None and not active:
                     # a deferred start is taken
                     if pending is None or tasks[pending][0] != 'start' or tasks[pending][1] != f:
-                        fail('last-start-wins', f'op {idx}: state {f} entered but latest request is {tasks.get(pending)}')
+                        fail('last-start-wins', f'op {idx}: state {f} entered but latest request is '
+                                                f'{pending} {tasks.get(pending)}')
                         picked = None
                     else:
                         picked = pending
@@ -344,7 +493,7 @@ def oracle(case, obs):
                 in_cleanup_seq = s['rc'] is not None and s['sf'] is not None
                 if not in_cleanup_seq:
                     fail('last-start-wins', f'cycle {idx}: pending request {entry_pending} neither taken nor cleaning up')
-            if picked_in_op is not None and pending is None and not env_posted:
+            if picked_in_op is not None:
                 kw = dict((k, v) for k, v in tasks[picked_in_op][3])
                 got = dict((k, v) for k, v in s['attrs'])
                 for k, v in kw.items():
@@ -363,30 +512,47 @@ FINDING_CLASSIFIERS = {}
 
 def nontrivial_key(case, obs):
     if case.get('kind') == 'hs':
-        return repr(('hs', case['ops'], obs['used_s'], case['scode'])) if obs['used_s'] else None
+        return repr(('hs', case['ops'], obs['used_s'], obs['used_c'], obs['env_eff'], case['scode'])) if obs['used_s'] else None
     if not obs['used_s']:
         return None
-    return repr((case['ops'], obs['used_s'], obs['used_c'], case['env']))
+    return repr((obs['xops'], obs['used_s'], obs['used_c'], obs['xenv']))
 
 
 def outcome_labels(case, obs):
     if case.get('kind') == 'hs':
-        return ['hs'] + sorted({'hs-status-%s' % st['st'][0] for st in obs['steps']})
+        labs = {'hs'} | {'hs-status-%s' % st['st'][0] for st in obs['steps']}
+        for n, t, tid in obs['env_eff']:
+            labs.add(f'hs-{t[0]}-at-hook-{obs["kinds"][n]}')
+        labs |= {'hs-' + e[1] for e in obs['hev']}
+        return sorted(labs)
     labs = set()
+    if case.get('kind') == 'conc':
+        labs.add('two-threads')
+        for n, t, tid in obs['xenv']:
+            labs.add(f'thread2-{t[0]}-at-hook-{obs["kinds"][n]}')
+        if any(op[0] == 'P' and op[2] >= 2000 for op in obs['xops']):
+            labs.add('thread2-post-between-cycles')
     for s in obs['steps']:
         for e in s['events']:
             labs.add(e[0] if e[0] != 'int' else f'int{e[1]}')
         if s['exc']:
             labs.add('raised')
-    if case['env']:
+    if case.get('env'):
         labs.add('env-interference')
+        for n, t, tid in obs['xenv']:
+            if n < len(obs['kinds']):
+                labs.add(f'env-{t[0]}-at-hook-{obs["kinds"][n]}')
     return sorted(labs)
 
 
 def sample_repr(case, obs):
     if case.get('kind') == 'hs':
         return {'case': case, 'status_per_op': [(st['st'], st['log']) for st in obs['steps']][:8]}
-    return {'case': case, 'events_per_op': [s['events'] for s in obs['steps']][:6]}
+    r = {'case': case, 'events_per_op': [s['events'] for s in obs['steps']][:6]}
+    if case.get('kind') == 'conc':
+        r['schedule'] = obs.get('decisions')
+        r['thread2_posts_at_hooks'] = [[n, obs['kinds'][n], tid] for n, t, tid in obs['xenv']]
+    return r
 
 
 # ------------------------------------------------------------------ generators
@@ -433,12 +599,12 @@ def exhaustive_cases(depth):
 
 
 def gen_cases(seed, tier):
-    return gen_core_cases(seed, tier) + gen_hs_cases(seed, tier)
+    return gen_core_cases(seed, tier) + gen_hs_cases(seed, tier) + gen_conc_cases(seed, tier)
 
 
 def gen_core_cases(seed, tier):
     rng = random.Random(seed * 1000003 + 14)
-    n = {'quick': 4000, 'thorough': 60000, 'search': 60000}[tier]
+    n = {'quick': 2500, 'thorough': 60000, 'search': 60000}[tier]
     cases = [rand_case(rng) for _ in range(n)]
     if tier != 'quick':
         for d in (1, 2, 3, 4, 5):
@@ -450,22 +616,20 @@ def gen_core_cases(seed, tier):
 
 
 def shrink(case):
-    if case.get('kind') == 'hs':
-        ops = case['ops']
-        for i in range(len(ops) - 1, -1, -1):
-            yield dict(case, ops=ops[:i] + ops[i + 1:])
-        if case['s']:
-            yield dict(case, s=case['s'][:-1])
-        return
     ops = case['ops']
     for i in range(len(ops) - 1, -1, -1):
         yield dict(case, ops=ops[:i] + ops[i + 1:])
-    for i in range(len(case['env'])):
+    for i in range(len(case.get('env', []))):
         yield dict(case, env=case['env'][:i] + case['env'][i + 1:])
+    if case.get('kind') == 'conc':
+        for i in range(len(case['posts2']) - 1, -1, -1):
+            yield dict(case, posts2=case['posts2'][:i] + case['posts2'][i + 1:], at=case['at'][:-1])
     if case['s']:
         yield dict(case, s=case['s'][:-1])
-    if case['c']:
+    if case.get('c'):
         yield dict(case, c=case['c'][:-1])
+    if case.get('scode'):
+        yield dict(case, scode=case['scode'][:-1])
 
 
 # ================================================================== HasStates layer (frappy/states.py)
@@ -521,22 +685,67 @@ def _text(t, names):
     return ['other', t]
 
 
+def _hs_start(op):
+    """['start', f, kw] (old corpus format) or ['start', f, cl, kw]; cl None = default on_cleanup, k >= 1 = scripted"""
+    if len(op) == 3:
+        return op[1], None, op[2]
+    return op[1], op[2], op[3]
+
+
 def run_hs(case):
-    """a real HasStates + Drivable module with scripted state functions"""
+    """a real HasStates + Drivable module with scripted state functions; start_machine / stop_machine between the
+    cycles (ops) and at hook points inside a cycle (case['env'])"""
+    import threading
     from frappy.core import Drivable
     from frappy.states import HasStates, Retry, Finish, status_code
     from frappy.lib import statemachine as smod
     from frappy.modulebase import PollInfo
     log, srv = _stub_env()
-    st = {'hook': 0, 'si': 0, 'calls': 0}
-    used_s = []
+    st = {'hook': 0, 'si': 0, 'ci': 0, 'calls': 0, 'in_cycle': False, 'posting': False, 'op': 0}
+    used_s, used_c, kinds, env_eff, hev = [], [], [], [], []
     sscript = case['s']
+    cscript = case.get('c', [])
+    env = {int(k): v for k, v in case.get('env', [])}
     scode = {int(k): v for k, v in case['scode']}
     reads = []
+    ref = {}
 
-    def hook():
+    def do_start(op, tid):
+        m, sm = ref['m'], ref['sm']
+        f, cl, kw = _hs_start(op)
+        kwds = {f'a{k}': v for k, v in kw}
+        if cl is not None:
+            kwds['cleanup'] = make_cleanup(cl)
+        hev.append([st['op'], 'start', tid])
+        m.start_machine(getattr(m, f'state_{f}'), **kwds)
+        sm.next_task.verif_id = tid
+
+    def do_stop(tid):
+        m, sm = ref['m'], ref['sm']
+        before = sm.next_task
+        m.stop_machine()
+        if sm.next_task is not before:
+            sm.next_task.verif_id = tid
+            hev.append([st['op'], 'stop_eff', tid])
+            return True
+        return False
+
+    def hook(kind):
         n = st['hook']
         st['hook'] += 1
+        kinds.append(kind)
+        if n in env and not st['posting']:
+            st['posting'] = True
+            try:
+                op = env[n]
+                if op[0] == 'start':
+                    do_start(op, 1000 + n)
+                    f, cl, kw = _hs_start(op)
+                    env_eff.append([n, ['start', f, 0 if cl is None else cl, kw], 1000 + n])
+                elif do_stop(1000 + n):
+                    env_eff.append([n, ['stop'], 1000 + n])
+            finally:
+                st['posting'] = False
         return n
 
     def make_state(sid):
@@ -544,7 +753,7 @@ def run_hs(case):
             st['calls'] += 1
             if st['calls'] > ABORT_AFTER:
                 raise Abort()
-            n = hook()
+            n = hook('S')
             b = sscript[st['si']] if st['si'] < len(sscript) else 'R'
             st['si'] += 1
             used_s.append([n, b])
@@ -564,6 +773,22 @@ def run_hs(case):
             f = status_code(scode[sid])(f)
         return f
 
+    def make_cleanup(k):
+        def c(sm):
+            n = hook('C')
+            b = cscript[st['ci']] if st['ci'] < len(cscript) else 'N'
+            st['ci'] += 1
+            used_c.append([n, b])
+            if b == 'N':
+                return None
+            if b == 'X':
+                return 42
+            if b == 'E':
+                raise ValueError('scripted cleanup')
+            return getattr(ref['m'], f'state_{b[1]}')
+        c.__name__ = f'cleanup_{k}'
+        return c
+
     ns = {f'state_{i}': make_state(i) for i in range(4)}
 
     def read_status(self):
@@ -580,8 +805,27 @@ def run_hs(case):
     class FakeTime:
         @staticmethod
         def time():
-            hook()
+            if st['in_cycle']:
+                hook('T')
             return 0.0
+
+    real_lock = threading.Lock()
+
+    class HookLock:
+        def acquire(self, *a, **k):
+            if st['in_cycle'] and not st['posting']:
+                hook('L')
+            return real_lock.acquire(*a, **k)
+
+        def release(self):
+            real_lock.release()
+
+        def __enter__(self):
+            self.acquire()
+            return True
+
+        def __exit__(self, *a):
+            self.release()
     orig_time = smod.time
     try:
         m = Mod('m', log, {'description': ''}, srv)
@@ -589,36 +833,50 @@ def run_hs(case):
         m.initModule()
         m.pollInfo = PollInfo(m.pollinterval, m.triggerPoll)
         sm = m._state_machine
+        ref['m'], ref['sm'] = m, sm
+        sm._lock = HookLock()
         orig_trans = sm.transition
 
         def transition(smx, newstate):
+            if newstate is None:
+                hev.append([st['op'], 'finish'])
+            elif smx.statefunc is None:
+                hev.append([st['op'], 'enter'])
             orig_trans(smx, newstate)
-            hook()
+            hook('XN' if newstate is None else 'XS')
         sm.transition = transition
         orig_on_cleanup = m.on_cleanup
 
         def on_cleanup(smx):
             r = orig_on_cleanup(smx)
-            hook()
+            n = hook('C')
+            used_c.append([n, 'N'])
             return r
         m.on_cleanup = on_cleanup
+        orig_final = m.final_status
+
+        def final_status(code=100, text=''):
+            hev.append([st['op'], 'final', [int(code), _text(text, names)]])
+            return orig_final(code, text)
+        m.final_status = final_status
         smod.time = FakeTime
         st['hook'] = 0
         steps = []
         for i, op in enumerate(case['ops']):
             del reads[:]
+            st['op'] = i
             exc = None
             try:
                 if op[0] == 'start':
-                    m.start_machine(getattr(m, f'state_{op[1]}'), **{f'a{k}': v for k, v in op[2]})
-                    sm.next_task.verif_id = i
+                    do_start(op, i)
                 elif op[0] == 'stop':
-                    before = sm.next_task
-                    m.stop_machine()
-                    if sm.next_task is not before:
-                        sm.next_task.verif_id = i
+                    do_stop(i)
                 else:
-                    m.cycle_machine()
+                    st['in_cycle'] = True
+                    try:
+                        m.cycle_machine()
+                    finally:
+                        st['in_cycle'] = False
             except Abort:
                 exc = 'Abort'
             except Exception as e:
@@ -632,11 +890,12 @@ def run_hs(case):
                 'log': [[int(v[0]), _text(v[1], names)] for v in reads],
                 'sf': None if sm.statefunc is None else int(sm.statefunc.__name__.split('_')[1]),
                 'nt': None if sm.next_task is None else getattr(sm.next_task, 'verif_id', -1),
+                'nt_start': isinstance(sm.next_task, smod.Start),
                 'param': [int(m.status[0]), _text(m.status[1], names)],
             })
             if exc:
                 break
-        return {'steps': steps, 'used_s': used_s}
+        return {'steps': steps, 'used_s': used_s, 'used_c': used_c, 'kinds': kinds, 'env_eff': env_eff, 'hev': hev}
     finally:
         smod.time = orig_time
 
@@ -663,7 +922,9 @@ def encode_hs(case, obs):
     ops = []
     for i, op in enumerate(case['ops'][:len(obs['steps'])]):
         if op[0] == 'start':
-            ops.append(f'(HStart {gal.nat(i)} {gal.nat(op[1])} {gal.lst(op[2], lambda p: gal.pair(p, gal.nat, gal.z))})')
+            f, cl, kw = _hs_start(op)
+            ops.append(f'(HStart {gal.nat(i)} {gal.nat(f)} {gal.nat(0 if cl is None else cl)} '
+                       f'{gal.lst(kw, lambda p: gal.pair(p, gal.nat, gal.z))})')
         elif op[0] == 'stop':
             ops.append(f'(HStop {gal.nat(i)})')
         else:
@@ -675,8 +936,11 @@ def encode_hs(case, obs):
         obl.append('{| ho_st := %s; ho_idle := %s; ho_log := %s; ho_sf := %s; ho_nt := %s |}' % (
             enc_status(s['st']), gal.option(s['idle'], enc_status), gal.lst(s['log'], enc_status),
             gal.option(s['sf'], gal.nat), gal.option(s['nt'], gal.nat)))
-    return '{| h_s := %s; h_scode := %s; h_ops := [%s]; h_obs := [%s] |}' % (
+    env = [f'({gal.nat(n)}, {enc_task(t, tid)})' for n, t, tid in obs['env_eff']]
+    return '{| h_s := %s; h_c := %s; h_env := [%s]; h_scode := %s; h_ops := [%s]; h_obs := [%s] |}' % (
         gal.lst(obs['used_s'], lambda p: f'({gal.nat(p[0])}, {enc_sbeh_hs(p[1])})'),
+        gal.lst(obs['used_c'], lambda p: f'({gal.nat(p[0])}, {enc_cbeh(p[1])})'),
+        '; '.join(env),
         gal.lst(case['scode'], lambda p: gal.pair(p, gal.nat, gal.z)), '; '.join(ops), '; '.join(obl))
 
 
@@ -685,81 +949,44 @@ def _busy(code):
 
 
 def oracle_hs(case, obs):
-    """busy from the start request until the machine has finished; final or stopped status afterwards"""
+    """A module built on the state machine reports a busy status from the start request until the machine has
+    finished, and its final or stopped status afterwards - the final status of the run that finished: what this run
+    itself set (final_status called by its state functions, the error handler for an exception in it, a stop request
+    that took effect during it), default (IDLE, ''); never a status written by an earlier run."""
     fails = []
 
     def fail(cls, what):
         fails.append({'class': cls, 'what': what})
-    run = None          # current run: {'stopped': bool, 'error': bool, 'final': code|None}
-    pending_start = False
+    hev = obs.get('hev', [])
+    hi = 0
+    own = None              # final status of the run in progress / of the last run; None: no run was ever entered
     for idx, s in enumerate(obs['steps']):
         op = case['ops'][idx]
         if s['exc']:
             fail('cycle-raised', f'op {idx} ({op}) raised {s["exc"]}')
             break
+        while hi < len(hev) and hev[hi][0] <= idx:
+            e = hev[hi]
+            hi += 1
+            if e[1] == 'enter':
+                own = [100, ['empty']]          # a new run begins
+            elif e[1] == 'final' and own is not None:
+                own = e[2]
+            elif e[1] == 'stop_eff' and own is not None:
+                own = [100, ['stopped']]
         if s['param'] != s['st']:
             fail('status', f'op {idx}: status parameter {s["param"]} differs from the machine status {s["st"]}')
         active = s['sf'] is not None
-        start_pending = s['nt'] is not None and case['ops'][s['nt']][0] == 'start'
+        start_pending = bool(s.get('nt_start'))
         if (active or start_pending) and not _busy(s['st'][0]):
             fail('status', f'op {idx} ({op}): machine running or start requested but status is {s["st"]}')
-        if op[0] == 'start':
-            pending_start = True
-        if op[0] == 'stop' and run is not None and idx and obs['steps'][idx - 1]['sf'] is not None:
-            run['stopped'] = True
-        if op[0] == 'cycle':
-            used = [b for n, b in obs['used_s']]
-            if pending_start and (active or s['nt'] is None):
-                pass
-        if not active and not start_pending and s['nt'] is None:
-            # finished: the status must be the final status of the run that ended (or of the stop / error)
+        if not active and not start_pending:
             if _busy(s['st'][0]):
-                fail('status', f'op {idx}: machine inactive but status still busy {s["st"]}')
-    # stale final status: a run that neither was stopped, nor raised, nor called final_status must end (IDLE, '')
-    runs = _hs_runs(case, obs)
-    for r in runs:
-        if r['ended'] is not None and r['plain'] and r['status'] != [100, ['empty']]:
-            fail('stale-final-status', f'run started at op {r["start"]} finished normally at op {r["ended"]} '
-                                       f'but reports {r["status"]}')
+                fail('status-final', f'op {idx}: machine inactive but status still busy {s["st"]}')
+            elif own is not None and s['st'] != own:
+                fail('status-final', f'op {idx}: machine finished, the final status of the run is {own} '
+                                     f'but the module reports {s["st"]}')
     return fails
-
-
-def _hs_runs(case, obs):
-    """segments: from the cycle in which a start request is entered to the cycle after which the machine is inactive.
-    plain = finished by Finish (behaviour F) without stop request, error or final_status in between and without a
-    later start request pending"""
-    runs = []
-    cur = None
-    si = 0
-    beh = [b for n, b in obs['used_s']]
-    calls_before = 0
-    for idx, s in enumerate(obs['steps']):
-        op = case['ops'][idx]
-        if op[0] == 'stop' and cur is not None:
-            cur['plain'] = False
-        if op[0] == 'start' and cur is not None:
-            cur['plain'] = False
-        if op[0] == 'cycle':
-            prev_nt = obs['steps'][idx - 1]['nt'] if idx else None
-            entered = prev_nt is not None and case['ops'][prev_nt][0] == 'start' and s['nt'] is None
-            if entered and (cur is None):
-                cur = {'start': prev_nt, 'plain': obs['steps'][idx - 1]['sf'] is None, 'ended': None, 'status': None}
-            elif entered:
-                cur = {'start': prev_nt, 'plain': False, 'ended': None, 'status': None}
-            if cur is not None and s['sf'] is None and s['nt'] is None:
-                cur['ended'] = idx
-                cur['status'] = s['st']
-                runs.append(cur)
-                cur = None
-        # behaviours consumed so far decide plainness: any E, X, FS or chained exhaustion spoils it
-    # refine plainness with the behaviours: a run is plain only if all its calls were R / N / F
-    # (conservative: if any non-plain behaviour occurs anywhere in the case, only runs before it count)
-    bad_first = next((i for i, b in enumerate(beh) if b in ('E', 'X') or (not isinstance(b, str) and b[0] == 'FS')), None)
-    if bad_first is not None:
-        runs = []       # keep the oracle simple and sound: judge only cases without such behaviours
-    if sum(1 for b in beh if not isinstance(b, str) and b[0] == 'N') >= 10:
-        runs = []       # chains may exhaust maxloops (an error)
-    return runs
 
 
 def f_stale_final_status(case, obs, f):
@@ -768,29 +995,143 @@ def f_stale_final_status(case, obs, f):
 
 FINDING_CLASSIFIERS['stale-final-status-of-earlier-run'] = f_stale_final_status
 
+
+def f_stop_while_finishing(case, obs, f):
+    """stop_machine took effect inside the transition callback of the finishing transition (is_active is still true
+    there, the machine becomes inactive right afterwards): hook of kind XN with an effective stop"""
+    if case.get('kind') != 'hs' or f['class'] != 'status-final':
+        return False
+    if "['stopping']" not in f['what']:          # the status that is stuck is (<code>, 'stopping')
+        return False
+    return any(t[0] == 'stop' and obs['kinds'][n] == 'XN' for n, t, tid in obs['env_eff'])
+
+
+FINDING_CLASSIFIERS['stop-while-finishing'] = f_stop_while_finishing
+
 BEH_HS = ['R', 'R', 'F', 'E', 'X', ['N', 0], ['N', 1], ['N', 2], ['N', 3], ['FS', 100], ['FS', 200], ['FS', 400]]
+BEH_HS_C = ['N', 'N', ['S', 0], ['S', 1], ['S', 2], ['S', 3], 'E', 'X']
+
+
+def rand_hs_start(rng):
+    return ['start', rng.randrange(4), rng.choice([None, None, 1, 2]),
+            [[k, rng.randint(-2, 2)] for k in range(2) if rng.random() < 0.3]]
 
 
 def rand_hs_case(rng):
     n = rng.randint(2, 10)
-    ops = [['start', rng.randrange(4), []]]
+    ops = [rand_hs_start(rng)]
     for _ in range(n):
         r = rng.random()
-        if r < 0.55:
+        if r < 0.6:
             ops.append(['cycle'])
-        elif r < 0.8:
-            ops.append(['start', rng.randrange(4), [[k, rng.randint(-2, 2)] for k in range(2) if rng.random() < 0.3]])
+        elif r < 0.82:
+            ops.append(rand_hs_start(rng))
         else:
             ops.append(['stop'])
     ops.append(['cycle'])
+    ops.append(['cycle'])
     plain = rng.random() < 0.4
-    pool = ['R', 'F', ['N', 0], ['N', 1], ['N', 2]] if plain else BEH_HS
+    pool = ['R', 'F', ['N', 0], ['N', 1], ['N', 2], ['FS', 200]] if plain else BEH_HS
     s = [rng.choice(pool) for _ in range(rng.randint(0, 20))]
+    c = [rng.choice(BEH_HS_C) for _ in range(rng.randint(0, 4))]
     scode = [[i, rng.choice([300, 300, 340, 370, 390])] for i in range(4) if rng.random() < 0.5]
-    return {'kind': 'hs', 's': s, 'scode': scode, 'ops': ops}
+    env = []
+    if rng.random() < 0.6:
+        for _ in range(rng.randint(1, 3)):
+            env.append([rng.randrange(0, 30), rand_hs_start(rng) if rng.random() < 0.65 else ['stop']])
+        env = sorted({e[0]: e for e in env}.values())
+    return {'kind': 'hs', 's': s, 'c': c, 'env': env, 'scode': scode, 'ops': ops}
+
+
+def restart_hs_case(rng):
+    """a run that is restarted (between cycles or from a hook inside a cycle) while it still has steps to do:
+    a cleanup sequence ending with final_status, a state function call that ends with final_status or raises after
+    the start request came; the new run finishes plainly or with its own final status"""
+    f1, f2 = rng.randrange(4), rng.randrange(4)
+    new_run = rng.choice([['F'], ['R', 'F'], ['R', 'R', 'F'], [['FS', 100]], ['R', ['FS', 200]], ['E']])
+    tail = [['cycle']] * (len(new_run) + rng.randint(1, 3))
+    scode = [[i, rng.choice([300, 340, 390])] for i in range(4) if rng.random() < 0.3]
+    kw = [[0, rng.randint(-2, 2)]] if rng.random() < 0.3 else []
+    kind = rng.randrange(4)
+    if kind == 0:
+        # cleanup sequence: cleanup function returns a state which (after some retries) calls final_status / raises / finishes
+        k = rng.randrange(4)
+        seq = ['R'] * rng.randint(0, 2) + [rng.choice([['FS', 200], ['FS', 400], 'E', 'F', ['FS', 100]])]
+        ops = [['start', f1, 1, []], ['cycle'], ['start', f2, rng.choice([None, 2]), kw]] + [['cycle']] * len(seq) + tail
+        return {'kind': 'hs', 's': ['R'] + seq + new_run, 'c': [['S', k]], 'env': [], 'scode': scode, 'ops': ops}
+    if kind == 1:
+        # the same, the restart comes from a hook of the second cycle (time.time() = 4, lock = 5, cleanup body = 6, ...)
+        k = rng.randrange(4)
+        seq = ['R'] * rng.randint(0, 2) + [rng.choice([['FS', 200], ['FS', 400], 'E', 'F'])]
+        ops = [['start', f1, 1, []], ['cycle']] + [['cycle']] * (len(seq) + 1) + tail
+        return {'kind': 'hs', 's': ['R', 'R'] + seq + new_run, 'c': [['S', k]],
+                'env': [[rng.choice([5, 7, 8, 9]), ['start', f2, None, kw]]], 'scode': scode, 'ops': ops}
+    if kind == 2:
+        # start_machine arrives during a state function call (hook 5 = body of the second call) which then ends the
+        # old run with final_status / an exception / Finish
+        end = rng.choice([['FS', 200], ['FS', 400], 'E', 'X', 'F'])
+        ops = [['start', f1, rng.choice([None, 1]), []], ['cycle'], ['cycle']] + tail
+        return {'kind': 'hs', 's': ['R', end] + new_run, 'c': ['N'],
+                'env': [[rng.choice([4, 5, 5, 5]), ['start', f2, None, kw]]], 'scode': scode, 'ops': ops}
+    # stop and restart mixed
+    ops = [['start', f1, rng.choice([None, 1]), []], ['cycle'], ['stop'], ['start', f2, None, kw]] + tail + [['cycle']]
+    if rng.random() < 0.5:
+        ops[2], ops[3] = ops[3], ops[2]
+    return {'kind': 'hs', 's': ['R'] + rng.choice([[], ['R'], [['FS', 200]]]) + new_run,
+            'c': [rng.choice(['N', ['S', rng.randrange(4)]])],
+            'env': [[rng.randrange(4, 12), rng.choice([['stop'], ['start', f1, None, []]])]] if rng.random() < 0.5 else [],
+            'scode': scode, 'ops': ops}
 
 
 def gen_hs_cases(seed, tier):
     rng = random.Random(seed * 1000003 + 1414)
-    n = {'quick': 1500, 'thorough': 30000, 'search': 30000}[tier]
-    return [rand_hs_case(rng) for _ in range(n)]
+    n = {'quick': 1100, 'thorough': 30000, 'search': 30000}[tier]
+    m = {'quick': 400, 'thorough': 10000, 'search': 10000}[tier]
+    rnd = [rand_hs_case(rng) for _ in range(n)]
+    return [restart_hs_case(rng) for _ in range(m)] + rnd
+
+
+# ================================================================== two real threads (harness/dsched.py)
+def rand_conc_case(rng):
+    n = rng.randint(2, 7)
+    ops = [['start', rng.randrange(3), rng.choice([None, 0, 1]), []]]
+    for _ in range(n):
+        ops.append('C' if rng.random() < 0.7 else rand_task(rng))
+    ops.append('C')
+    s = [rng.choice(BEH_S) for _ in range(rng.randint(0, 20))]
+    c = [rng.choice(BEH_C) for _ in range(rng.randint(0, 4))]
+    posts2 = [rand_task(rng) for _ in range(rng.randint(1, 3))]
+    # the poster thread needs one scheduler step to reach its first lock acquisition and one per post
+    at = sorted(rng.sample(range(0, 45), len(posts2) + 1))
+    return {'kind': 'conc', 's': s, 'c': c, 'ops': ops, 'posts2': posts2, 'at': at}
+
+
+def systematic_conc_cases():
+    """one post of the second thread at every switch point of a few fixed programs"""
+    progs = [
+        (['R'], ['N'], [['start', 0, 0, [[0, 1]]], 'C', 'C']),
+        (['F', 'R'], ['N'], [['start', 0, None, []], 'C', 'C', 'C']),
+        (['R', 'R'], [['S', 2]], [['start', 0, 0, []], 'C', ['start', 1, 1, [[1, 2]]], 'C', 'C']),
+        (['R', 'E', 'R'], [['S', 1]], [['start', 0, 0, []], 'C', 'C', 'C']),
+        (['R'], ['N'], [['start', 0, 0, []], 'C', ['stop'], 'C', 'C']),
+    ]
+    for s, c, ops in progs:
+        for task in (['start', 2, 1, [[0, 7]]], ['stop']):
+            for k in range(0, 40):
+                yield {'kind': 'conc', 's': list(s), 'c': list(c), 'ops': list(ops), 'posts2': [task], 'at': [0, k + 1]}
+
+
+def gen_conc_cases(seed, tier):
+    rng = random.Random(seed * 1000003 + 141414)
+    n = {'quick': 700, 'thorough': 20000, 'search': 20000}[tier]
+    cases = [rand_conc_case(rng) for _ in range(n)]
+    cases.extend(systematic_conc_cases())
+    return cases
+
+
+def search_cases(seed, mismatching):
+    """when an obligation is broken and the quick cases show no failure: three more quick budgets"""
+    cases = []
+    for k in (1, 2, 3):
+        cases.extend(gen_cases(seed + 7919 * k, 'quick'))
+    return cases
